@@ -283,6 +283,108 @@ pub fn run_leftover_case(seed_rng: &mut Rng, sent: &[(Vec<u8>, Vec<OwnedFd>)], l
     Ok((g, e, fp, notes))
 }
 
+/// Class E: the same comparison over a REAL socketpair (the library's libc recvmsg path with ancillary data, its own
+/// executor thread): a raw peer thread answers the client handshake, then writes the stream with `sendmsg` in random
+/// pieces, each message's fds travelling with its first byte (SCM_RIGHTS), and shuts the socket down.
+pub fn run_real_socket_case(rng: &mut Rng, sent: &[(Vec<u8>, Vec<OwnedFd>)]) -> Result<(Vec<Got>, Option<String>), String> {
+    use crate::harness::realsock::*;
+    use std::os::fd::AsRawFd;
+    use std::os::unix::net::UnixStream;
+    let (a, mut b) = UnixStream::pair().map_err(|e| e.to_string())?;
+    let pieces: Vec<(Vec<u8>, Vec<OwnedFd>)> = sent.iter().map(|(x, f)| (x.clone(), f.iter().map(|y| y.as_fd().try_clone_to_owned().unwrap()).collect())).collect();
+    let mut prng = Rng::new(rng.next_u64());
+    let (go_tx, go_rx) = std::sync::mpsc::channel::<()>();
+    let peer = std::thread::spawn(move || -> Result<(), String> {
+        raw_server_handshake(&mut b, true).map_err(|e| format!("handshake: {e}"))?;
+        go_rx.recv_timeout(std::time::Duration::from_secs(60)).map_err(|_| "no go".to_string())?;
+        for (bytes, fds) in pieces {
+            let raw: Vec<i32> = fds.iter().map(|f| f.as_raw_fd()).collect();
+            let mut pos = 0;
+            let mut first = true;
+            while pos < bytes.len() {
+                let n = match prng.below(4) {
+                    0 => 1,
+                    1 => 1 + prng.usize_below(16),
+                    2 => 1 + prng.usize_below(300),
+                    _ => bytes.len() - pos,
+                }
+                .min(bytes.len() - pos);
+                let k = send_with_fds(b.as_raw_fd(), &bytes[pos..pos + n], if first { &raw } else { &[] }).map_err(|e| format!("sendmsg: {e}"))?;
+                first = false;
+                pos += k;
+                if prng.chance(1, 8) {
+                    std::thread::yield_now();
+                }
+            }
+        }
+        let _ = b.shutdown(std::net::Shutdown::Write);
+        // keep the socket open until the other side is done reading
+        std::thread::sleep(std::time::Duration::from_millis(5));
+        Ok(())
+    });
+    let conn = zbus::block_on(zbus::connection::Builder::unix_stream(a).p2p().build()).map_err(|e| format!("client handshake over the socketpair failed: {e}"))?;
+    let mut stream = MessageStream::from(&conn);
+    let _ = go_tx.send(());
+    let mut got = Vec::new();
+    let mut end = None;
+    let deadline = std::time::Instant::now() + std::time::Duration::from_secs(120);
+    loop {
+        let next = zbus::block_on(async {
+            futures_lite::future::or(async { Some(stream.next().await) }, async {
+                async_io_timer(std::time::Duration::from_secs(120)).await;
+                None
+            })
+            .await
+        });
+        match next {
+            Some(Some(Ok(m))) => {
+                let d = m.data();
+                got.push(Got { bytes: d.bytes().to_vec(), fd_ids: d.fds().iter().map(|f| dev_ino(f.as_fd())).collect(), pos: seq_of(&m) });
+            }
+            Some(Some(Err(e))) => {
+                end = Some(e.to_string());
+                break;
+            }
+            Some(None) => {
+                end = Some("<end of stream>".into());
+                break;
+            }
+            None => return Err("wall-clock guard (120 s) fired while reading".into()),
+        }
+        if std::time::Instant::now() > deadline {
+            return Err("wall-clock guard (120 s) fired while reading".into());
+        }
+    }
+    match peer.join() {
+        Ok(Ok(())) => {}
+        Ok(Err(e)) => return Err(format!("raw peer: {e}")),
+        Err(_) => return Err("raw peer panicked".into()),
+    }
+    Ok((got, end))
+}
+
+/// A timer that works without the async-io reactor dependency in this crate: a helper thread completes a channel.
+async fn async_io_timer(d: std::time::Duration) {
+    let (tx, rx) = std::sync::mpsc::channel::<()>();
+    let waker_slot: std::sync::Arc<std::sync::Mutex<Option<std::task::Waker>>> = Default::default();
+    let w2 = waker_slot.clone();
+    std::thread::spawn(move || {
+        std::thread::sleep(d);
+        let _ = tx.send(());
+        if let Some(w) = w2.lock().unwrap().take() {
+            w.wake();
+        }
+    });
+    std::future::poll_fn(move |cx| {
+        if rx.try_recv().is_ok() {
+            return std::task::Poll::Ready(());
+        }
+        *waker_slot.lock().unwrap() = Some(cx.waker().clone());
+        std::task::Poll::Pending
+    })
+    .await
+}
+
 /// Receive position as an ordered integer (Sequence is opaque but ordered; use Debug digits).
 fn seq_of(m: &zbus::Message) -> u64 {
     let s = format!("{:?}", m.recv_position());
@@ -317,9 +419,11 @@ pub fn compare(ctx: &mut Ctx, index: u64, sent: &[Sent], got: &[Got], end: &Opti
 
 pub fn run(ctx: &mut Ctx) {
     let files = fd_files();
+    // `--x-only real-socket`: only class E (the valgrind layer, which is ~25x slower, runs just the libc socket path)
+    let only_real = ctx.args.extra.get("only").map(|s| s == "real-socket").unwrap_or(false);
     // (A) exhaustive single and double cuts of short streams
     let mut k_global = 0u64;
-    {
+    if !only_real {
         let mut rng = Rng::new(0xC14);
         let m1 = Msg::signal(1, "/a", "a.b", "S").marshal();
         let m2 = Msg::method_return(2, 9).with_body(vec![Val::Y(7)]).marshal();
@@ -366,7 +470,7 @@ pub fn run(ctx: &mut Ctx) {
         }
     }
     // (B) random streams with random chunk plans and scheduler biases
-    let n = ctx.budget(1500, 60_000);
+    let n = if only_real { 0 } else { ctx.budget(1500, 60_000) };
     for j in 0..n {
         let i = 1_000_000 + j;
         if !ctx.want(i) {
@@ -461,7 +565,10 @@ pub fn run(ctx: &mut Ctx) {
         let m3 = Msg::signal(3, "/", "x.y", "T").with_body(vec![Val::H(0)]).marshal();
         let max_l = m1.len() + m2.len() + 20;
         let mut kd = 0u64;
-        for l in 0..=max_l {
+        for l in 0..=(if only_real { 0 } else { max_l }) {
+            if only_real {
+                break;
+            }
             for variant in 0..3u64 {
                 kd += 1;
                 let idx = 5_000_000_000 + kd;
@@ -499,8 +606,72 @@ pub fn run(ctx: &mut Ctx) {
             ctx.count("leftover_lengths_enumerated", max_l as u64 + 1);
         }
     }
+    // (E) real socketpair: libc recvmsg with SCM_RIGHTS, the library's own executor thread
+    {
+        let m = ctx.budget(if ctx.args.layer == "miri" { 0 } else { 160 }, 6_000);
+        if m > 0 && ctx.args.replay.is_none() {
+            // warm-up: the first real connection of a process creates process-wide resources (the async-io reactor's
+            // epoll/event/timer descriptors, its thread) that legitimately stay; the fd census below starts after them
+            let mut rng = Rng::new(0x77a1);
+            let warm = vec![(Msg::signal(1, "/w", "w.w", "W").marshal(), Vec::<OwnedFd>::new())];
+            let _ = run_real_socket_case(&mut rng, &warm);
+            std::thread::sleep(std::time::Duration::from_millis(50));
+        }
+        for j in 0..m {
+            let idx = 7_000_000_000 + j;
+            if !ctx.want(idx) {
+                continue;
+            }
+            let mut rng = ctx.rng(idx);
+            let nm = 1 + rng.usize_below(10);
+            let mut sent_raw: Vec<(Vec<u8>, Vec<OwnedFd>)> = Vec::new();
+            for _ in 0..nm {
+                let nf = if rng.chance(1, 3) { 1 + rng.usize_below(3) } else { 0 };
+                let size_class = match rng.below(20) {
+                    0 => 3,
+                    1..=3 => 2,
+                    4..=8 => 0,
+                    _ => 1,
+                };
+                let msg = gen_stream_msg(&mut rng, nf, size_class);
+                let fds: Vec<OwnedFd> = (0..nf).map(|_| rng.pick(&files).as_fd().try_clone_to_owned().unwrap()).collect();
+                sent_raw.push((msg.marshal(), fds));
+            }
+            let sent: Vec<Sent> = sent_raw.iter().map(|(b, f)| Sent { bytes: b.clone(), fd_ids: f.iter().map(|x| dev_ino(x.as_fd())).collect() }).collect();
+            let fds_before = vcommon::ctx::open_fd_count();
+            ctx.guarded(idx, "real-socket", || json!({"messages": nm}), |ctx| {
+                ctx.count("evaluations", 1);
+                ctx.count("class:real-socketpair", 1);
+                ctx.count("real_socket_messages", nm as u64);
+                match run_real_socket_case(&mut rng, &sent_raw) {
+                    Ok((got, end)) => {
+                        ctx.distinct(fnv(&format!("real|{idx}")));
+                        compare(ctx, idx, &sent, &got, &end, "real-socketpair", json!({"messages": nm}));
+                    }
+                    Err(e) if e.contains("wall-clock guard") => ctx.problem(&format!("C14 real-socket case {idx}: {e}")),
+                    Err(e) => ctx.finding(idx, "harness-or-hang", "-", "real-socketpair", json!({"error": e})),
+                }
+            });
+            drop(sent_raw);
+            // fd census: nothing may stay open once the connection, the messages and the peer are gone
+            // (executor threads of dropped connections exit asynchronously: allow them a moment)
+            // (generous: 30 s of polling, so that a loaded machine or a 25x slower valgrind run cannot turn a late thread exit
+            // into an alarm; a descriptor still open after that is not "late")
+            let mut leaked = 0isize;
+            for _ in 0..3000 {
+                leaked = vcommon::ctx::open_fd_count() as isize - fds_before as isize;
+                if leaked <= 0 {
+                    break;
+                }
+                std::thread::sleep(std::time::Duration::from_millis(10));
+            }
+            if leaked > 0 {
+                ctx.finding(idx, "file-descriptors-left-open", "-", "real-socketpair", json!({"before": fds_before, "leaked": leaked}));
+            }
+        }
+    }
     // (C) a header declaring more than 128 MiB must be refused without reading the message
-    if ctx.args.shard == 0 {
+    if ctx.args.shard == 0 && !only_real {
         for (k, (body_len, fields_len, extra)) in [(0x0800_0000u32, 0u32, 0usize), (0x07ff_fff0, 0x100, 300), (0xffff_ffff, 0, 16), (0, 0x0800_0000, 100), (0x0400_0000, 0x0400_0000, 0)].into_iter().enumerate() {
             let idx = 9_000_000_000 + k as u64;
             if !ctx.want(idx) {
